@@ -37,7 +37,24 @@ AlphaThorough == AlphaQuick \o <<
   D(2, "bad", "ok", "none")
 >>
 
-CoordsQuick    == {<<1, 0>>, <<1, 1>>, <<2, 0>>, <<3, 0>>}
-CoordsThorough == {<<1, 0>>, <<1, 1>>, <<2, 0>>, <<3, 0>>, <<3, 1>>}
+(* a DID whose create takes effect through a partial-failure branch: its   *)
+(* patches do not apply (empty document WITH an update commitment), or its *)
+(* delta is invalid (no update commitment); the operations around it are   *)
+(* ordered relative to the create's anchoring point all the same           *)
+AlphaFailCreate == <<
+  C(1, 4, "fail", 10),
+  C(1, 4, "mismatch", 19),
+  U(4, 5, "ok", "ok", "none", 11),
+  U(5, 6, "ok", "ok", "none", 12),
+  U(4, 5, "ok", "fail", "none", 14),
+  R(1, 2, 5, "ok", "ok", "none", 30),
+  R(1, 2, 4, "ok", "fail", "none", 35),
+  D(1, "ok", "ok", "none"),
+  D(2, "ok", "ok", "none")
+>>
+AlphaInvalidCreate == <<C(1, 4, "invalid", 10)>> \o Tail(AlphaFailCreate)
+
+CoordsQuick    == {<<1, 0>>, <<2, 1>>, <<2, 2>>, <<3, 0>>}
+CoordsThorough == {<<1, 0>>, <<1, 1>>, <<2, 1>>, <<2, 2>>, <<3, 0>>}
 
 =============================================================================
